@@ -552,6 +552,21 @@ class C09:
         label, cmd, form, reps = case["label"], case["cmd"].replace("BIG", self.big), case["form"], case["reps"]
         src = render(cmd, form)
         interrupt = label.startswith("interrupt/")
+        inj = None
+        if case.get("hold"):
+            # directed schedule: hold whichever thread reaches the first statement of the named method
+            import importlib
+
+            from vlib.sched import Injector, _code_of
+
+            mod, qual, secs = case["hold"]
+            obj = importlib.import_module(mod)
+            for part in qual.split("."):
+                obj = getattr(obj, part)
+            c = _code_of(obj)
+            inj = Injector(0, p=0.0).target(obj)
+            inj.forced[(c.co_name, min(ln for _, _, ln in c.co_lines() if ln is not None and ln > c.co_firstlineno))] = secs
+            inj.start()
         rec.case(nontrivial=repr((label, form, reps)))
         rec.setadd("shapes", label)
         self.cleanup_between_items()
@@ -601,6 +616,9 @@ class C09:
                 except ValueError:
                     pass
         finally:
+            if inj is not None:
+                rec.count("directed_holds_taken", inj.stats()["delays_injected"])
+                inj.stop()
             if not self.pty:
                 os.dup2(self.real1, 1)
                 os.dup2(self.real2, 2)
@@ -633,7 +651,19 @@ class C09:
                 viol("TERMINAL-NOT-RETURNED/at-quiescence", race="capture", owner=s1.get("terminal_owner"))
                 self.take_terminal_back()
             if s1.get("termios") != pre.get("termios"):
-                viol("TERMINAL-MODES-CHANGED", before=pre.get("termios"), after=s1.get("termios"))
+                a, b = pre.get("termios"), s1.get("termios")
+                only_vsusp = False
+                try:
+                    import termios as _t
+
+                    only_vsusp = a[:6] == b[:6] and [i for i in range(len(a[6])) if a[6][i] != b[6][i]] == [_t.VSUSP]
+                except Exception:  # noqa
+                    pass
+                if only_vsusp:
+                    # schedule-dependent (which command loses the race varies): one key
+                    viol("TERMINAL-MODES-CHANGED/suspend-character-left-" + ("disabled" if b[6][_t.VSUSP] in ("00", 0) else "changed"), race="none", before=a[6][_t.VSUSP], after=b[6][_t.VSUSP])
+                else:
+                    viol("TERMINAL-MODES-CHANGED", before=a, after=b)
                 try:
                     import termios
 
@@ -698,6 +728,10 @@ class C09:
         if sh["tier"] == "quick":
             mine = mine[:34]
         cases = [{"label": label, "cmd": cmd, "form": form, "reps": reps if not label.startswith(("interrupt/", "suspend/")) else min(reps, 3), "pty": True} for label, cmd, form in mine]
+        if sh["index"] == 0:
+            # directed schedule: the reader thread of a captured command restores the terminal's suspend character late,
+            # after the next captured command has already started
+            cases.insert(0, {"label": "ok/process", "cmd": "exitn 0 t", "form": "$()", "reps": 3, "pty": True, "hold": ["xonsh.procs.posix", "PopenThread._restore_suspend_keybind", 0.05]})
         self._pty_cases(cases, rec, sh.get("timeout", 600) - 30)
 
     def _pty_cases(self, cases, rec, timeout):
